@@ -27,12 +27,13 @@
 
 #define HC_Q_OK(q) ((((q).n == 0) == ((q).head == NULL)) && (((q).n >= 2) == ((q).next != NULL)) && ((q).n < 2 || (q).next != (q).head))
 
-/* entry i of a user vector: unused, empty, or an existing buffer of that length */
+/* entry i of a user vector: unused, or an existing NON-EMPTY buffer of that length (empty entries are outside
+ * the units of this module, see spec.json not_decided) */
 #ifdef HC_BUFFERS_OPAQUE
 /* buffer positions are arbitrary pointer values (the unit never looks through them) */
-#define HC_ENT_PRE(a, i) ((i) >= (a)->a_nio || (a)->a_iov[i].iov_len <= VIOV_LENMAX)
+#define HC_ENT_PRE(a, i) ((i) >= (a)->a_nio || ((a)->a_iov[i].iov_len >= 1 && (a)->a_iov[i].iov_len <= VIOV_LENMAX))
 #else
-#define HC_ENT_PRE(a, i) ((i) >= (a)->a_nio || (a)->a_iov[i].iov_len == 0 || ((a)->a_iov[i].iov_len <= VIOV_LENMAX && __CPROVER_is_fresh((a)->a_iov[i].iov_buf, (a)->a_iov[i].iov_len)))
+#define HC_ENT_PRE(a, i) ((i) >= (a)->a_nio || ((a)->a_iov[i].iov_len >= 1 && (a)->a_iov[i].iov_len <= VIOV_LENMAX && __CPROVER_is_fresh((a)->a_iov[i].iov_buf, (a)->a_iov[i].iov_len)))
 #endif
 #if HC_NIO_CAP >= 3
 #define HC_IOV_PRE(a) ((a)->a_nio <= HC_NIO_CAP && HC_ENT_PRE(a, 0) && HC_ENT_PRE(a, 1) && HC_ENT_PRE(a, 2))
